@@ -1091,6 +1091,50 @@ def unhex(t):
     return bytes.fromhex(t).decode("utf-8", "replace")
 
 
+def judge_hyp_block(blk, drv, p1):
+    """c01hyp — byte level of fsg_search_hyp (Model/HypBuf.lean, Props/C01Hyp.lean): the harness line
+    `HB <allocated size> <strlen> <hex of the whole allocated block> st37=<n>` against the driver's
+    `R HB ok <len> <block> <final c> <#stores> <each byte 0..len-2 stored once> <no NUL in a word> <cstr = words joined>`.
+    -> info dict (None: nothing to compare)"""
+    HB = [l.split() for l in blk if l.startswith("HB ")]
+    m = drv.get("HB")
+    if not HB or not m:
+        return None
+    h = HB[0]
+    out = {"compared": False, "alloc_known": False}
+    if m[0] == "fail":
+        p1.append(("byte-level model of fsg_search_hyp: a store left the block (excluded by C01_hyp_no_store_out_of_bounds)", False,
+                   {"model": " ".join(m)}))
+        return out
+    if (h[1] == "null") != (m[0] == "null"):
+        p1.append(("fsg_search_hyp returned NULL / a string where the byte-level model returns the other", False,
+                   {"impl": h[1:3], "model": m[:2]}))
+        return out
+    if h[1] == "null":
+        return out
+    mlen, mbuf, mc, mst, once, nonul, cok = int(m[1]), m[2], int(m[3]), int(m[4]), m[5], m[6], m[7]
+    out.update(compared=True, len=mlen)
+    if not (mc == 0 and mst == mlen - 1 and once == "1" and cok == "1" and len(mbuf) == 2 * mlen and mbuf.endswith("00")):
+        p1.append(("byte-level model of fsg_search_hyp: block not exactly filled (excluded by C01_hyp_block_exact)", False, {"model": " ".join(m)[:400]}))
+    if nonul != "1":
+        p1.append(("hypothesis of C01_hyp_cstring false: a dumped word contains a NUL byte", False, {}))
+    if int(h[2]) != mlen - 1:
+        p1.append(("strlen of the returned hypothesis string ≠ len - 1 of the byte-level model", False,
+                   {"impl_strlen": int(h[2]), "model_len": mlen, "impl_block": h[3][:400], "model_block": mbuf[:400]}))
+    if h[1] != "-":
+        out["alloc_known"] = True
+        st = next((x for x in h[4:] if x.startswith("st37=")), "st37=?")
+        if st != "st37=37":
+            p1.append(("self-test of the allocation-size observer failed (calloc(1, 37) must report 37)", False, {"got": st}))
+        if int(h[1]) != mlen:
+            p1.append(("allocated size of the returned hypothesis string ≠ Σ(strlen(word) + 1) (byte-level model)", False,
+                       {"impl_alloc": int(h[1]), "impl_strlen": int(h[2]), "model_len": mlen, "impl_block": h[3][:400], "model_block": mbuf[:400]}))
+        elif h[3] != mbuf:
+            p1.append(("bytes of the block holding the returned hypothesis string differ from the byte-level model", False,
+                       {"impl_block": h[3][:400], "model_block": mbuf[:400]}))
+    return out
+
+
 def judge_dump(blk, drv, nfoff):
     """-> (problems_c01, problems_c03, info).  Each problem: (kind, impl_violates: bool, detail)"""
     p1, p3 = [], []
@@ -1133,6 +1177,7 @@ def judge_dump(blk, drv, nfoff):
     mx = drv["X"]
     if mh != rh:
         p1.append(("hypothesis differs from the model's backtrace", False, {"impl": unhex(rh), "model": unhex(mh)}))
+    info["hyp_block"] = judge_hyp_block(blk, drv, p1)      # c01hyp: allocation size, strlen, every byte of the block
     if [x[1] for x in mx] != [x[1] for x in X] or (g("nseg") == "null") != (len(X) == 0):
         p1.append(("segment words differ from the model's backtrace", False,
                    {"impl": [unhex(x[1]) for x in X], "model": [unhex(x[1]) for x in mx]}))
@@ -1181,7 +1226,18 @@ def judge_dump(blk, drv, nfoff):
         if hd[0] != "1":
             p3.append(("hypothesis string is not the base forms of the segment words that are not filler words of the dictionary", True,
                        {"hyp": unhex(rh), "segments": [unhex(x[1]) for x in X], "filler_words_of_the_dictionary_in_the_search_FSG": sorted(dfill)}))
-        if len(hd) > 1 and hd[1] != "1":
+        # hypotheses of Props/C03Fillers.lean (C03_filler_marks_follow_dictionary) evaluated on this dump: hgram = no word of the
+        # grammar as loaded is marked or is a filler word of the dictionary; hsil / hrange / halts = line SR of the harness
+        by_str = {sw[i][2]: i for i in sw}
+        gw = [l.split() for l in blk if l.startswith("GW ")]
+        hgram = all(w[3] == "0" and sd.get(by_str.get(w[2])) != "1" for w in gw if len(w) > 3)
+        sr = next((l.split() for l in blk if l.startswith("SR ")), None)
+        info["filler_theorem_hypotheses"] = "hold" if hgram and sr and sr[2:] == ["0", "1", "0"] else \
+            "grammar names a filler word of the dictionary" if not hgram else "not evaluated" if not sr else "dictionary"
+        if sr and sr[2:] != ["0", "1", "0"]:
+            p3.append(("a hypothesis of C03_filler_marks_follow_dictionary does not hold on the decoder's dictionary", False,
+                       {"SR (words the filler loop visits, of them no dictionary fillers, <sil> is a filler, alternates with another base)": sr[1:]}))
+        if len(hd) > 1 and hd[1] != "1" and hgram:
             on_arc = {l.split()[5] for l in blk if l.startswith("SA ")}
             p3.append(("the grammar's filler marks (fsg_model_is_filler) differ from the dictionary's (dict_filler_word) on a word that labels a "
                        "transition of the search FSG", False,
@@ -2223,6 +2279,24 @@ def run_check(c, prop):
         c.oblige("oracle: segsTileB, scoresSumB, hypothesis = segment words on every reported segmentation; frame accounting "
                  "(returns of processing calls + end_utt = front-end frames; decoder_n_frames = that + source offset) on every utterance",
                  all_ok["oracle"])
+    if prop == "C01":
+        # c01hyp: byte level of fsg_search_hyp (Props/C01Hyp.lean); every mismatch is already a problem of its dump (correspondence)
+        hb = {"blocks_compared": 0, "with_allocation_size": 0, "len_max": 0, "len_histogram": {}}
+        for tag, cs in cases:
+            for inf in results[tag]["infos"]:
+                b = inf.get("hyp_block")
+                if b and b.get("compared"):
+                    hb["blocks_compared"] += 1
+                    hb["with_allocation_size"] += 1 if b["alloc_known"] else 0
+                    hb["len_max"] = max(hb["len_max"], b["len"])
+                    k = "1-8" if b["len"] <= 8 else "9-32" if b["len"] <= 32 else "33-128" if b["len"] <= 128 else "129+"
+                    hb["len_histogram"][k] = hb["len_histogram"].get(k, 0) + 1
+        c.oblige("correspondence (byte level, Model/HypBuf.lean): on every dump with a hypothesis the block decoder_hyp returned has "
+                 "allocated size = the model's len = Σ(strlen(base form) + 1), strlen = len - 1, and every byte of the block = the model's "
+                 "block (pass 2 run on the dumped backtrace: no store out of bounds, c ends at 0, each byte 0..len-2 stored once, no NUL "
+                 "inside a word); allocation-size observer self-tested; ≥ 1 block compared with its allocation size",
+                 all_ok["corr"] and (hb["with_allocation_size"] > 0 or not all_ok["crash"] or agg["with_hyp"] == 0), hb)
+        c.cov["hypothesis_blocks (c01hyp)"] = hb
     c.oblige("every decode ran to completion (no sanitizer report, assert, exit, timeout)", all_ok["crash"])
     c.oblige("generator: final results of utterances of 0, 1, 2, 3 and 4 frames were all produced and judged in this run",
              all(small_final.get(t, 0) > 0 for t in range(5)) or not all_ok["crash"], small_final)
